@@ -23,6 +23,7 @@ inductive Use
   | sortedByCaller   -- collected unsorted; every caller sorts or only tests existence
   | perEntryIO       -- one independent file per entry
   | trustedLoad      -- order of patterns handed to go/packages (result used as a map by package path)
+  | commutingUpdates -- every entry triggers an update of the state; updates for different entries commute (flags, one fixed value added once)
   deriving Repr, DecidableEq
 
 /-- the reviewed sites: (site|body summary, class) -/
@@ -37,6 +38,8 @@ def reviewed : List (String × Use) := [
   ("config.parseMethods#1:rawConverter.Methods|append:names,sorted", .sortedAfter),
   ("enum.transformRegex#1:ctx.Source.Members|insert", .setInsert),
   ("generator.fileManager.renderFiles#1:m.Files|insert+return", .setInsert),
+  ("generator.generator.addContext#1:g.callers[check.Definition]|cond-call:g.addContext+setflag:Dirty=true", .commutingUpdates),
+  ("generator.generator.markCallersDirty#1:g.callers[def]|setflag:Dirty=true", .commutingUpdates),
   ("generator.validateMethods#1:lookup.Exact|append:genMethods,sorted", .sortedAfter),
   ("goverter.writeFiles#1:files|return", .perEntryIO),
   ("method.AvailableContextDebug#1:required|append:lines,sorted+insert", .sortedAfter),
@@ -85,6 +88,24 @@ theorem C09_insert_sites_map {β} [BEq α] [LawfulBEq α] (σ σ' : List (α × 
 /-- **quantifier** (`satisfiesContext`) -/
 theorem C09_quantifier_site (p : α → Bool) (σ σ' : List α) (h : σ.Perm σ') : σ.all p = σ'.all p :=
   all_perm p σ σ' h
+
+/-- **commutingUpdates** (`markCallersDirty`, `addContext`): each visited caller is flagged for a rebuild, resp. gets ONE fixed
+context argument added unless it has it already; such updates commute, so folding them over the callers in any iteration order
+gives the same state -/
+theorem C09_commuting_updates {σ : Type} (f : σ → α → σ) (comm : ∀ s a b, f (f s a) b = f (f s b) a)
+    (l l' : List α) (h : l.Perm l') (s : σ) : l.foldl f s = l'.foldl f s := by
+  induction h generalizing s with
+  | nil => rfl
+  | cons x _ ih => exact ih (f s x)
+  | swap x y l => simp only [List.foldl_cons]; rw [comm]
+  | trans _ _ ih1 ih2 => exact (ih1 s).trans (ih2 s)
+
+/-- setting a flag on the visited entry is such an update (the model of `x.Dirty = true` on a table of flags) -/
+theorem C09_setflag_commutes (s : List Bool) (a b : Nat) :
+    (s.set a true).set b true = (s.set b true).set a true := by
+  by_cases h : a = b
+  · subst h; rfl
+  · exact List.set_comm true true h
 
 /-- **C09_patterns_perm_dup**: go/packages returns every matched root package once, so permuting or
 duplicating the patterns permutes the root list; ParseDocs visits the roots sorted by ID -/
